@@ -214,6 +214,14 @@ loop:
 	if cut {
 		r.c.Count("conversation_cut_short", 1)
 	}
+	if first == nil {
+		// the steered answer came before the point where the call is made
+		// (tx-submission: the peer's Init step): the call follows it
+		r.c.Count("history_first_call_after_fault", 1)
+		r.settle()
+		r.peer.note("the harness starts %s (first call)", cs.key())
+		first = r.startCall(cs.key(), func() (string, error) { return cs.Invoke(r.oc) })
+	}
 	r.waitFor(first.isDone, 3*time.Second)
 	r.settle()
 	if !first.isDone() {
